@@ -156,3 +156,40 @@ func Harness_C01_size_boundaries() {
 	}
 	verif_Cover("C01.size.done")
 }
+
+// Bodies above one megabyte - far below the 16 MiB limit - for every packet type that carries a
+// raw payload (the type byte is symbolic): the writer accepts them, so the reader returns them and
+// stays aligned for the packet that follows. First and last bytes symbolic, the rest a pattern.
+func Harness_C01_large_bodies() {
+	ctx := context.Background()
+	sink := &verifSink{}
+	wp := NewStreamProcessor(nil, sink, ctx)
+	n := []int{1<<20 - 1, 1 << 20, 1<<20 + 1}[verif_Choose(3)]
+	body := make([]byte, n)
+	for i := range body {
+		body[i] = byte(i*11 + 5)
+	}
+	body[0], body[n-1] = verif_Byte(), verif_Byte()
+	t := packet.Type(verif_Byte())
+	verif_Assume(t&(packet.Compressed|packet.Encrypted) == 0)
+	verif_Assume(!t.IsHeartbeat() && !t.IsJsonCommand() && !t.IsCommandResp())
+	_, err := wp.WritePacket(&packet.TransferPacket{PacketType: t, Payload: body}, false, 0)
+	verif_Assert("C01.large.write", err == nil)
+	marker := []byte{verif_Byte(), 0xA5}
+	_, err = wp.WritePacket(&packet.TransferPacket{PacketType: packet.Type(0x22), Payload: marker}, false, 0)
+	verif_Assert("C01.large.write_marker", err == nil)
+	rd := &verifReader{Data: sink.Buf}
+	rp := NewStreamProcessor(rd, nil, ctx)
+	if t&0x3F >= 0x20 && t&0x3F <= 0x23 {
+		verif_Cover("C01.large.tunnel_type")
+	} else {
+		verif_Cover("C01.large.control_type")
+	}
+	got, _, rerr := rp.ReadPacket()
+	verif_Assert("C01.large.read", rerr == nil && got != nil && len(got.Payload) == n)
+	verif_Assert("C01.large.body", got.Payload[0] == body[0] && got.Payload[n-1] == body[n-1] && got.Payload[n/2] == body[n/2])
+	got2, _, rerr2 := rp.ReadPacket()
+	verif_Assert("C01.large.read_marker", rerr2 == nil && got2 != nil && verif_BytesEq(got2.Payload, marker))
+	verif_Assert("C01.large.aligned", rd.Pos == len(rd.Data))
+	verif_Cover("C01.large.done")
+}
